@@ -200,32 +200,70 @@ Section Reflect.
       apply negb_true_iff. apply Nat.eqb_neq. exact H.
   Qed.
 
+  Lemma site_ext_iff : forall nd,
+    site_ext n S nd = true <->
+    exists i s, infl_in n nd i s /\
+      match s, nth_error (ninclk nd) i with
+      | SrcClk d, Some (Some ic) => ps d <> ps ic
+      | _, _ => True
+      end.
+  Proof.
+    intros nd. unfold site_ext. fold ps. rewrite existsb_exists. split.
+    - intros (i & _ & H). apply existsb_exists in H. destruct H as (s & Hs & H).
+      exists i, s. split; [apply in_in_srcs; exact Hs|].
+      destruct s as [d|]; auto. destruct (nth_error (ninclk nd) i) as [[ic|]|]; auto.
+      apply Nat.eqb_neq. apply negb_true_iff. exact H.
+    - intros (i & s & Hs & H). exists i. split; [eapply infl_in_idx; eauto|].
+      apply existsb_exists. exists s. split; [apply in_in_srcs; exact Hs|].
+      destruct s as [d|]; auto. destruct (nth_error (ninclk nd) i) as [[ic|]|]; auto.
+      apply negb_true_iff. apply Nat.eqb_neq. exact H.
+  Qed.
+
+  Lemma crossing_cases : forall v, crossing_at n v ->
+    exists nd, get_node n v = Some nd /\
+      ((uses_base_check (nkind nd) = true /\
+         ((exists i j a b, infl_in n nd i (SrcClk a) /\ infl_in n nd j (SrcClk b) /\ ps a <> ps b)
+          \/ (exists i j s, i <> j /\ infl_in n nd i SrcUnk /\ infl_in n nd j s)
+          \/ (exists c i s, own_clock nd = Some c /\ infl_in n nd i s /\ ~ same_dom ps s (SrcClk c))))
+       \/ (nkind nd = KCdc /\ exists s, infl_in n nd 0 s /\
+             match s, nth_error (nclocks nd) 0 with
+             | SrcClk d, Some (Some ic) => ps d <> ps ic
+             | _, _ => True
+             end)
+       \/ (nkind nd = KExt /\ exists i s, infl_in n nd i s /\
+             match s, nth_error (ninclk nd) i with
+             | SrcClk d, Some (Some ic) => ps d <> ps ic
+             | _, _ => True
+             end)).
+  Proof.
+    intros v H.
+    inversion H as [nd i j a b Hg Hb Hi Hj Hne | nd i j s Hg Hb Hij Hi Hj | nd c i s Hg Hb Hc Hi Hns | nd s Hg Hk Hi Hm | nd i s Hg Hk Hi Hm];
+      exists nd; (split; [exact Hg|]).
+    - left. split; auto. left. exists i, j, a, b. auto.
+    - left. split; auto. right. left. exists i, j, s. auto.
+    - left. split; auto. right. right. exists c, i, s. auto.
+    - right. left. split; auto. exists s. auto.
+    - right. right. split; auto. exists i, s. auto.
+  Qed.
+
   Lemma site_b_iff : forall v nd, get_node n v = Some nd -> (site_b n S nd = true <-> crossing_at n v).
   Proof.
-    intros v nd Hg. unfold site_b. destruct (uses_base_check (nkind nd)) eqn:Hb.
-    - rewrite site_base_iff. split.
-      + intros [(i & j & a & b & Hi & Hj & Hne) | [(i & j & s & Hij & Hi & Hj) | (c & i & s & Hc & Hi & Hns)]].
+    intros v nd Hg. split.
+    - unfold site_b. destruct (uses_base_check (nkind nd)) eqn:Hb.
+      + rewrite site_base_iff.
+        intros [(i & j & a & b & Hi & Hj & Hne) | [(i & j & s & Hij & Hi & Hj) | (c & i & s & Hc & Hi & Hns)]].
         * exact (cr_mix n v nd i j a b Hg Hb Hi Hj Hne).
         * exact (cr_unk n v nd i j s Hg Hb Hij Hi Hj).
         * exact (cr_own n v nd c i s Hg Hb Hc Hi Hns).
-      + intros H. inversion H as [nd' i j a b Hg' Hb' Hi Hj Hne | nd' i j s Hg' Hb' Hij Hi Hj | nd' c i s Hg' Hb' Hc Hi Hns | nd' s Hg' Hk Hi Hm];
-          rewrite Hg in Hg'; inversion Hg'; subst nd'.
-        * left. exists i, j, a, b. auto.
-        * right. left. exists i, j, s. auto.
-        * right. right. exists c, i, s. auto.
-        * rewrite Hk in Hb. discriminate.
-    - destruct (nkind nd) eqn:Hk; try discriminate.
-      + rewrite site_cdc_iff. split.
-        * intros (s & Hs & H). exact (cr_cdc n v nd s Hg Hk Hs H).
-        * intros H. inversion H as [nd' i j a b Hg' Hb' Hi Hj Hne | nd' i j s Hg' Hb' Hij Hi Hj | nd' c i s Hg' Hb' Hc Hi Hns | nd' s Hg' Hk' Hi Hm];
-            rewrite Hg in Hg'; inversion Hg'; subst nd'; try (rewrite Hk in Hb'; discriminate).
-          exists s. auto.
-      + split; [discriminate|]. intros H.
-        inversion H as [nd' i j a b Hg' Hb' Hi Hj Hne | nd' i j s Hg' Hb' Hij Hi Hj | nd' c i s Hg' Hb' Hc Hi Hns | nd' s Hg' Hk' Hi Hm];
-          rewrite Hg in Hg'; inversion Hg'; subst nd'; try (rewrite Hk in Hb'; discriminate). congruence.
-      + split; [discriminate|]. intros H.
-        inversion H as [nd' i j a b Hg' Hb' Hi Hj Hne | nd' i j s Hg' Hb' Hij Hi Hj | nd' c i s Hg' Hb' Hc Hi Hns | nd' s Hg' Hk' Hi Hm];
-          rewrite Hg in Hg'; inversion Hg'; subst nd'; try (rewrite Hk in Hb'; discriminate). congruence.
+      + destruct (nkind nd) eqn:Hk; try discriminate.
+        * rewrite site_cdc_iff. intros (s & Hs & H). exact (cr_cdc n v nd s Hg Hk Hs H).
+        * rewrite site_ext_iff. intros (i & s & Hs & H). exact (cr_ext n v nd i s Hg Hk Hs H).
+    - intros H. destruct (crossing_cases v H) as (nd' & Hg' & Hc).
+      rewrite Hg in Hg'. inversion Hg'; subst nd'. unfold site_b.
+      destruct Hc as [[Hb Hc] | [[Hk Hc] | [Hk Hc]]].
+      + rewrite Hb. apply site_base_iff. exact Hc.
+      + rewrite Hk. simpl. apply site_cdc_iff. exact Hc.
+      + rewrite Hk. simpl. apply site_ext_iff. exact Hc.
   Qed.
 
   Theorem has_crossing_b_iff : has_crossing_b n S = true <-> has_crossing n.
